@@ -79,6 +79,8 @@ def _call_case(L, case, order_seed):
         cname, cargs = case["self"]
         obj = getattr(L, cname)(*copy.deepcopy(cargs))
         fn = getattr(obj, case["fn"].split(".")[1])
+    elif "factory" in case:
+        fn = getattr(L, case["factory"])()  # a contract defined on the spot; nothing else refers to it, it is dropped after the call
     else:
         fn = getattr(L, case["fn"])
     return fn, list(case["args"]), kw, obj
@@ -96,6 +98,8 @@ def check_message(L, case, kw, msg, selfobj=None):
     # R3
     if "self" in case:
         target = getattr(getattr(L, case["self"][0]), case["fn"].split(".")[1])
+    elif "factory" in case:
+        target = getattr(L, case["factory"])()
     else:
         target = getattr(L, case["fn"])
     raw = target
@@ -243,6 +247,10 @@ def gen_history(r, L):
             steps.append({"k": "closure", "limits": [r.randint(1, 50), r.randint(1, 50)], "x": r.randint(60, 99)})
         elif x < 0.8:
             steps.append({"k": "noise", "x": -r.randint(1, 100)})
+        elif x < 0.84:
+            # contracts defined on the spot, violated and dropped, in phases of one kind each, the garbage collected in between
+            fc = [c["id"] for c in cases if "factory" in c]
+            steps.append({"k": "factory", "phases": [[r.choice(fc), r.choice([1, 5, 40])] for _ in range(r.randint(2, 5))], "gc": r.random() < 0.8})
         elif x < 0.9:
             steps.append({"k": "fault"})
         else:
@@ -297,6 +305,22 @@ def run_history(L, h, by_id):
         if k == "reload":
             after, ref = _reload_step(st, icontract)
             results.append(("__reload__", (st["a"], st["b"]), (after, ref), {}))
+            return
+        if k == "factory":
+            import gc
+
+            for cid, reps in st["phases"]:
+                case = by_id[cid]
+                for _ in range(reps):
+                    fn, args, kw, _ = _call_case(L, case, 0)
+                    try:
+                        fn(*args, **kw)
+                        results.append((cid, 0, ("no-violation", None), kw))
+                    except icontract.ViolationError as e:
+                        results.append((cid, 0, str(e), kw))
+                    del fn
+                if st.get("gc"):
+                    gc.collect()  # the checkers refer to themselves: only the cyclic collector frees them
             return
         if k == "noise":
             try:
